@@ -229,7 +229,12 @@ func mutateJSON(rt *rapid.T, valid []byte) ([]byte, string) {
 				switch ty, _ := x["type"].(string); ty {
 				case "Boolean":
 					scalars = append(scalars, x, x, x, x)
-				case "Integer", "LongInteger", "BigInteger", "Enumeration", "Interval", "DateTime", "TextString", "ByteString":
+				case "Integer":
+					scalars = append(scalars, x)
+					if tg, _ := x["tag"].(string); strings.Contains(tg, "Mask") || tg == "0x42002C" || tg == "0x42008E" {
+						scalars = append(scalars, x, x, x) // bit masks have a list syntax of their own
+					}
+				case "LongInteger", "BigInteger", "Enumeration", "Interval", "DateTime", "TextString", "ByteString":
 					scalars = append(scalars, x)
 				}
 			}
@@ -237,7 +242,12 @@ func mutateJSON(rt *rapid.T, valid []byte) ([]byte, string) {
 				n = scalars[rapid.IntRange(0, len(scalars)-1).Draw(rt, "scalarnode")]
 			}
 			n["value"] = rapid.SampledFrom([]any{"true", "false", "t", "f", "T", "F", "TRUE", "False", "1", "0", "yes", true, false, json.Number("1"), json.Number("0"),
-				"12", "+12", " 12", "0x0000000C", "0X0C", "1e2", "2024-01-01T00:00:00Z", "2024-01-01", json.Number("1700000000"), "00", "0g", json.Number("12")}).Draw(rt, "altform")
+				"12", "+12", " 12", "0x0000000C", "0X0C", "1e2", "Encrypt||Decrypt", "|Encrypt", "Encrypt| |Decrypt", " ", "||", "Sign|", "Sign |  | Verify", "Sign Verify", "Sign  Verify", "|", "Sign|0x00000002|", "2024-01-01T00:00:00Z", "2024-01-01", json.Number("1700000000"), "00", "0g", json.Number("12")}).Draw(rt, "altform")
+			if ty, _ := n["type"].(string); ty == "Integer" && rapid.Bool().Draw(rt, "masklist") {
+				// an Integer may be a bit mask (under its own tag or as an attribute value): the list syntax with empty,
+				// blank, repeated and unknown components
+				n["value"] = rapid.SampledFrom([]string{"Encrypt||Decrypt", "|Encrypt", "Encrypt| |Decrypt", " ", "||", "Sign|", "Sign |  | Verify", "Sign  Verify", "|", "Sign|0x00000002|", "| |", "Sign||", "||Sign", "Nope|Sign", "Sign|Nope"}).Draw(rt, "maskform")
+			}
 			desc = "scalar-in-another-lexical-form"
 		case 10, 11:
 			// a numeric element (big integers first) gets a JSON number that is legal JSON but no integer literal
